@@ -52,6 +52,7 @@ type Contract struct {
 	Asserts    map[string][]*Clause // anchor -> assert clauses (anchor "call:Name@n")
 	HavocCalls bool
 	RecvFrom   []*RecvRule
+	Binds      []*Clause // logical (ghost) variables bound to entry values
 }
 
 // RecvRule: facts (and ghost effects) attached to a channel receive.
@@ -138,7 +139,7 @@ var clauseKeywords = map[string]bool{
 	"modifies": true, "loop": true, "lit": true, "inline": true, "pure": true, "arith": true,
 	"nowrap": true, "concurrent": true, "deterministic": true, "ghost": true, "spec": true,
 	"axiom": true, "lemma": true, "const-invariant": true, "type": true, "guarded_by": true,
-	"monitor": true, "invariant": true, "cover": true, "trusted": true, "opt": true, "assert": true,
+	"monitor": true, "invariant": true, "cover": true, "trusted": true, "opt": true, "assert": true, "binds": true,
 	"havoc-calls": true, "end": true, "recv": true, "recv-from": true, "sort-less": true,
 }
 
@@ -265,10 +266,17 @@ func parseContractFile(path, pkgPath string) (*ContractFile, error) {
 				return nil, fail(l, "assert needs '<anchor> : expr'")
 			}
 			anchor := strings.TrimSpace(rest[:k])
-			c, err := mkClause("assert", strings.TrimSpace(rest[k+3:]), l)
+			body := strings.TrimSpace(rest[k+3:])
+			label := ""
+			if strings.HasPrefix(body, "[") {
+				kk := strings.Index(body, "]")
+				label, body = body[1:kk], strings.TrimSpace(body[kk+1:])
+			}
+			c, err := mkClause("assert", body, l)
 			if err != nil {
 				return nil, err
 			}
+			c.Name = label
 			target.Asserts[anchor] = append(target.Asserts[anchor], c)
 		case "modifies":
 			if target == nil {
@@ -384,6 +392,19 @@ func parseContractFile(path, pkgPath string) (*ContractFile, error) {
 		case "opt":
 			k, v := splitWord(rest)
 			target.Opts[k] = strings.TrimSpace(v)
+		case "binds":
+			// binds ghost.name = expr : a logical variable naming an entry value
+			k := strings.Index(rest, "=")
+			if k < 0 || !strings.HasPrefix(strings.TrimSpace(rest), "ghost.") {
+				return nil, fail(l, "binds ghost.<name> = <expr>")
+			}
+			name := strings.TrimPrefix(strings.TrimSpace(rest[:k]), "ghost.")
+			c, err := mkClause("binds", strings.TrimSpace(rest[k+1:]), l)
+			if err != nil {
+				return nil, err
+			}
+			c.Name = name
+			target.Binds = append(target.Binds, c)
 		case "trusted":
 			if curLemma != nil {
 				curLemma.Trusted = true
